@@ -32,6 +32,7 @@ class Sim:
         self.explained = 0
         self.stored = 0
         self.nonzero = False
+        self.stored_any = False
         self.exact_agree = 0
         self.exactness_lost = 0
 
@@ -46,10 +47,13 @@ class Sim:
         if kind == 'store':
             self.ex.update_storage(x, y)
             self.stored += 1
+            self.stored_any = True
             return None
         n_inner, upd = op[3], op[4]
-        if self.ex.seen_samples >= 1 and len(self.h.storage) == 0:
+        if self.ex.seen_samples >= 1 and not self.cfg.get('library_defaults') and len(self.h.storage) == 0:
             return None  # precondition of every documented caller: never explain against an empty storage
+        if self.cfg.get('library_defaults') and self.ex.seen_samples >= 1 and self.stored_any is False:
+            return None
         kw = {}
         if n_inner is not None:
             kw['n_inner_samples'] = n_inner
@@ -61,6 +65,8 @@ class Sim:
         except Exception as e:
             return f'C01:exception:{type(e).__name__}', f'explain_one raised {e!r} (names {self.cfg["names"]!r})'
         self.calls += 1
+        if upd:
+            self.stored_any = True
         if was_seen >= 1:
             self.explained += 1
         return self.check()
@@ -128,6 +134,8 @@ def run_case(case):
         labels.append('alpha=1')
     if cfg['lbib']:
         labels.append('loss_bigger_is_better')
+    if cfg.get('library_defaults'):
+        labels.append('library_default_storage_and_imputer')
     if any(op[0] == 'store' for op in ops):
         labels.append('manual_store')
     if any(op[0] == 'reseed' for op in ops):
@@ -138,6 +146,8 @@ def run_case(case):
 def stream_case(cfg):
     ops = [['explain', r['x'], r['y'], r.get('n_inner'), r.get('upd', True)] for r in cfg['stream']]
     c = {k: v for k, v in cfg.items() if k not in ('stream', 'mode')}
+    if cfg['seeds'][0] % 5 == 0:
+        c['library_defaults'] = True    # every fifth case: storage and imputer are the ones the explainer creates itself
     return {'cfg': c, 'ops': ops}
 
 
